@@ -287,6 +287,14 @@ class Arr:
         r = _build(out_shape, lambda idx: f([_get_at(self.data, idx[:axis] + (k,) + idx[axis:]) for k in range(sh[axis])]))
         return Arr(r) if isinstance(r, list) else r
 
+    def prod(self, axis=None, **_k):
+        def mul(xs):
+            r = 1
+            for v in xs:
+                r *= v
+            return r
+        return self.reduce_axis(mul, axis)
+
     def argmax(self, axis=None, **_k):
         return self.reduce_axis(lambda xs: max(range(len(xs)), key=lambda i: (xs[i], -i)), axis)
 
@@ -508,6 +516,8 @@ def _flat(d) -> list:
 
 
 def _full(shape, fill):
+    if isinstance(shape, Arr) and shape.ndim == 1:
+        shape = list(shape.data)
     shape = [int(s.data if isinstance(s, Arr) else s) for s in (shape if isinstance(shape, (tuple, list)) else (shape,))]
     if any(s < 0 for s in shape):
         raise ValueError("negative dimensions are not allowed")
@@ -557,7 +567,11 @@ def _pad(arr, pad_width, mode="constant", constant_values=0, **_k):
 
 def _where(cond, a=None, b=None):
     if a is None and b is None:
-        raise TypeError("np.where with one argument is not modelled")
+        # the tuple of index arrays of the true cells, one array per axis (row-major order)
+        c = _arr(cond)
+        sh = c.shape
+        hits = [idx for idx in itertools.product(*[range(n_) for n_ in sh]) if _get_at(c.data, idx)]
+        return tuple(Arr([h[j] for h in hits]) for j in range(len(sh)))
     return _elementwise(lambda c, x, y: x if c else y, cond, a, b)
 
 
@@ -605,7 +619,26 @@ def _vstack(xs):
     return Arr(rows)
 
 
+def _prod(x, axis=None, **_k):
+    a = _arr(x)
+    if not isinstance(a, Arr):
+        return a
+
+    def mul(xs):
+        r = 1
+        for v in xs:
+            r *= v
+        return r
+    return a.reduce_axis(mul, axis)
+
+
 MODELS = {
+    "warnings.warn": lambda *a, **k: None,
+    "np.prod": _prod,
+    "np.column_stack": lambda xs: Arr([list(r) for r in zip(*[_to_data(x) for x in xs])]),
+    "np.maximum": lambda a, b, **k: _elementwise(lambda x, y: x if x >= y else y, a, b),
+    "np.minimum": lambda a, b, **k: _elementwise(lambda x, y: x if x <= y else y, a, b),
+    "np.copy": lambda a, **k: _arr(a).copy() if isinstance(_arr(a), Arr) else a,
     "np.ndindex": lambda *sh: list(itertools.product(*[range(int(n_)) for n_ in (sh[0] if len(sh) == 1 and isinstance(sh[0], (tuple, list)) else sh)])),
     "np.meshgrid": _meshgrid,
     "np.vstack": _vstack,
